@@ -53,6 +53,10 @@ enum Decision {
     Either(Stored),
     /// scratchpads delivered concurrently: any of the valid pads with the highest counter
     AnyOf(Vec<Stored>),
+    /// the key holds a record of ANOTHER kind (the kinds share one key space: a register's key is also the key
+    /// of the chunk whose content is meta ++ owner key; a scratchpad and a transaction set of one owner share a
+    /// key): whatever the call returns, the held record stays
+    KeepOtherKind { held: &'static str },
 }
 
 struct InFlight {
@@ -143,7 +147,8 @@ impl<'a> World<'a> {
             unknown: data::ed_key(s, 9_000),
             stranger_node: data::ed_key(s, 9_001),
             pad_owners: (0..2).map(|i| data::bls_key(s, 100 + i)).collect(),
-            tx_owners: (0..2).map(|i| data::bls_key(s, 200 + i)).collect(),
+            // colliding runs: the transaction sets belong to the scratchpad owners (same record keys)
+            tx_owners: (0..2).map(|i| data::bls_key(s, if plan.collide { 100 } else { 200 } + i)).collect(),
             reg_owners: (0..2).map(|i| data::bls_key(s, 300 + i)).collect(),
             writer: data::bls_key(s, 400),
             stranger: data::bls_key(s, 401),
@@ -208,6 +213,12 @@ impl<'a> World<'a> {
     }
 
     fn chunk_content(&self, who: u8) -> Vec<u8> {
+        if self.plan.collide && who % 3 == 0 {
+            // the chunk whose address is the address of register 0
+            let mut c = Self::reg_meta(0).to_vec();
+            c.extend_from_slice(&self.reg_owners[0].public_key().to_bytes());
+            return c;
+        }
         let mut c = format!("antsim chunk {} of seed {}", who % 3, self.plan.seed).into_bytes();
         c.resize(64 + (who as usize % 3) * 17, 0xab);
         c
@@ -391,6 +402,8 @@ impl<'a> World<'a> {
                     .map(|(id, flag)| match flag {
                         // a validly signed transaction that belongs to another address
                         2 => data::transaction(&other_owner, &self.stranger, *id, true),
+                        // validly signed by the owner, then one signed field altered
+                        3 => data::tampered_transaction(&owner, &self.stranger, *id, (*id as u8).wrapping_add(uid as u8)),
                         _ => data::transaction(&owner, &self.stranger, *id, *flag == 1),
                     })
                     .collect();
@@ -530,6 +543,17 @@ impl<'a> World<'a> {
                     why: format!("kind={kindn}"),
                 },
             }
+        };
+        // a record of another kind held at the same key is never replaced
+        let prior_kind = prior.as_ref().map(|p| match p {
+            Stored::Chunk(_) => 0u8,
+            Stored::Pad(_) => 1,
+            Stored::Txs(_) => 2,
+            Stored::Reg(_) => 3,
+        });
+        let decision = match prior_kind {
+            Some(pk) if pk != kind && !mangled && !mismatch => Decision::KeepOtherKind { held: kind_name(pk) },
+            _ => decision,
         };
         // concurrent scratchpad deliveries: any valid pad with the highest counter may win
         let decision = match (&decision, kind) {
@@ -861,6 +885,23 @@ impl<'a> World<'a> {
                         );
                     }
                 }
+                Decision::KeepOtherKind { held } => {
+                    if same_as(self, &prior) {
+                        self.rep.probe("delivery_to_key_held_by_another_kind_changed_nothing");
+                    } else {
+                        let prop: &'static str = match self.plan.property.as_str() {
+                            "C03" => "C03",
+                            "C04" => "C04",
+                            _ => "C07",
+                        };
+                        self.rep.violate(
+                            prop,
+                            "record_of_another_kind_replaced",
+                            &[("kind", kindn.clone()), ("held", held.to_string()), ("entry", entry.clone())],
+                            format!("delivery {} ({kindn}, entry {entry}) arrived at a key that holds a {held}; the held record must stay but the store changed", f.n),
+                        );
+                    }
+                }
                 Decision::Either(s) => {
                     if same_as(self, &Some(s.clone())) {
                         self.model.insert(key.clone(), s.clone());
@@ -1104,6 +1145,7 @@ impl<'a> World<'a> {
             Decision::Store(_) => "expected to be stored/merged".into(),
             Decision::Either(_) => "update of a held record with invalid payment: unchanged or merged".into(),
             Decision::AnyOf(v) => format!("one of {} concurrent pads", v.len()),
+            Decision::KeepOtherKind { held } => format!("key holds a {held}: no change expected"),
         };
         self.rep.log(format!(
             "deliver #{n}: entry={} kind={} who={} paid={} key_mode={} mangle={} counter={} form={} items={:?} -> {summary}",
